@@ -33,6 +33,7 @@ EXPLANATION = (
 EXPLANATION += (" R-C10-4: per-point knee values spread over the hysteresis table follow the table's index layout (hysteresis_index outermost, assessment_point_index fastest), by a shape algebra over ones/array/tile/repeat/flatten. R-C10-5: the lifetime branches switch at the end of the table the failure position refers to (shared with R-C09-6) - needed for monotonicity in the load level.")
 EXPLANATION += (' R-C10-6: in the damage modules the per-point assessment and component-curve parameters are neither reduced over the batch (np.min/np.max/.min()/...) nor re-ordered by their index labels (sort_index/sort_values/reindex).')
 EXPLANATION += (' R-C10-7: incremental sums over classes (outer loop over j, inner loop from a carried start to U(j)) carry exactly the end of the processed range (affine equality), so every class is added once whatever class the loop starts at, and a loop start derived from a minimum over the points is clamped to a valid class index.')
+EXPLANATION += (' R-C10-8: the per-node maximum load (paired by position with the nodes of a load step by the binned laws) is computed with a groupby that keeps the order of appearance (sort=False); order-class analysis.')
 ASSUMPTIONS = [
     "pandas groupby(level).reduction() reduces within each group only; element-wise numpy/pandas operations keep rows apart",
 ]
@@ -249,6 +250,42 @@ def run(ctx):
     ctx.attempt(_r5)
     ctx.attempt(_r6)
     ctx.attempt(_r7)
+    ctx.attempt(_r8)
+
+
+def _r8(ctx):
+    """The per-node maximum load is handed to the binned notch laws, which pair it by POSITION with the nodes of a load step
+    (R-C07-7).  It must therefore list the nodes in the order in which they appear in the load sequence (groupby(...,
+    sort=False)); the default key-sorted groupby gives ascending node ids, which is another order unless the ids happen to
+    ascend."""
+    from ..orders import Orders
+    prog = ctx.prog
+    ctx.rule("R-C10-8", floor=1, what="per-node maximum load keeps the node order of the load sequence (order-class agreement)")
+    f = prog.func("pylife.strength.fkm_load_distribution:FKMLoadSequence.maximum_absolute_load") if \
+        "pylife.strength.fkm_load_distribution:FKMLoadSequence.maximum_absolute_load" in prog.functions else None
+    if f is None:
+        cands = [fi for k, fi in prog.functions.items() if k.startswith("pylife.strength.fkm_load_distribution:") and
+                 fi.name == "maximum_absolute_load"]
+        if len(cands) != 1:
+            raise AnalysisError("maximum_absolute_load not found")
+        f = cands[0]
+    o = Orders(prog, [f.module.name], row_source=lambda e, fi: is_self_attr(e, "_obj"))
+    n = 0
+    for st in walk_function(f.node):
+        if isinstance(st, ast.Assign) and any(isinstance(c.func, ast.Attribute) and c.func.attr == "groupby" and
+                                              any(const_value(a) == "node_id" for a in c.args) for c in calls_in(st.value)):
+            k = o.oc(st.value, {}, f)
+            n += 1
+            if k in ("ROWG", "ROW"):
+                ctx.holds(f, st, "per-node maxima %s: nodes in order of appearance" % norm_text(st.value))
+            elif k in ("GROUPED", "SORTED"):
+                ctx.violated(f, st, "the per-node maximum loads %s come in ascending node id order, but they are paired by position "
+                             "with the nodes of a load step: for node ids that are not ascending every point is binned with "
+                             "another point's maximum (or the assessment raises)" % norm_text(st.value), text="per-node maxima order")
+            else:
+                raise AnalysisError("maximum_absolute_load: order class of %s unknown" % norm_text(st.value))
+    if n == 0:
+        raise AnalysisError("maximum_absolute_load: per-node reduction not found")
 
 
 def _r7(ctx):
@@ -685,6 +722,15 @@ LD = "src/pylife/strength/fkm_load_distribution.py"
 
 def variants():
     out = []
+
+    def sorted_node_maxima(tree):
+        f = find_func(tree, "FKMLoadSequence.maximum_absolute_load")
+        for c in calls_in(f):
+            if isinstance(c.func, ast.Attribute) and c.func.attr == "groupby":
+                c.keywords = [k for k in c.keywords if k.arg != "sort"]
+                return True
+        return False
+    out.append(witness("per-node maxima from a key-sorted groupby", LD, sorted_node_maxima, "R-C10-8"))
 
     def carry_j(tree):
         f = find_func(tree, "DamageCalculatorPRAJ._compute_xbar_minus_2")
